@@ -463,7 +463,9 @@ impl Driver {
         let armed = self.arm_notifier().is_ok();
         let succeed = armed && self.submit_auto(Some(Duration::ZERO), false).is_ok();
         // If submission failed, return true to let the driver wake up immediately.
-        !succeed | self.notifier.reset()
+        // A thread-pool completion whose wake fell between the two `set_awake` calls of
+        // `poll` left no trace in the flag: report the waiting entry itself as well.
+        !succeed | self.notifier.reset() | !self.completed_rx.is_empty()
     }
 
     /// Push the multishot `PollAdd` of the notifier if it is not armed.
